@@ -81,6 +81,16 @@ def main():
             # valid program: determinism of the IR text
             p = progen.Gen(r).program(size=4)
             inputs.append([("m.pn", progen.src_prog(p, progen.Layout(r)))])
+    # dependency graphs of constants and structures with cycles (E413/E415/E416 name other members of the cycle)
+    import c11
+    first_cycle_input = len(inputs)
+    gi = 0
+    while len(inputs) - first_cycle_input < (400 if thorough else 40) and gi < 100000:
+        src, ids, edges = c11.graph_case(rng.fork("cyc%d" % gi))
+        gi += 1
+        if len(edges) >= len(ids) and "const" in src and "struct" in src:
+            inputs.append([("m.pn", src + "fn main()\n{\n}\n")])
+    inputs.append([("m.pn", "const A: usize = |:S|;\nconst B: usize = A + 16;\nconst C: usize = B + A;\nstruct S\n{\n\tbuf: [C]u8,\n}\nfn main()\n{\n}\n")])
     reqs = ["diag\t" + "\t".join(x for nm, s in u for x in (nm, esc(s))) for u in inputs]
     h = run_harness(reqs)
     checked = located = 0
@@ -145,9 +155,11 @@ def main():
                 "why": "the %s variant of the program gets different diagnostics, lines, columns or underlined text" % what,
                 "files": {"m.pn": vsrc}, "harness_request": "diag\tm.pn\t" + esc(vsrc),
                 "expected (kind, code, line, col, text)": sorted(want)[:8], "got": sorted(got)[:8]})
-    # determinism: fresh processes must print identical diagnostics / IR
-    det = [i for i in range(len(inputs)) if i % (10 if thorough else 18) == 0]
-    runs = [[run_harness_serial([reqs[i]])[0] for i in det] for _ in range(3)]
+    # determinism: fresh processes must print identical diagnostics (primary locations and the hash of the complete rendered
+    # text: messages, secondary labels, notes) / IR.  Inputs with dependency cycles (several candidates for every label,
+    # collected in hash sets by the scoper) are all re-run.
+    det = [i for i in range(len(inputs)) if i % (10 if thorough else 18) == 0 or i >= first_cycle_input]
+    runs = [[run_harness_serial([reqs[i]])[0] for i in det] for _ in range(4)]
     for k, i in enumerate(det):
         outs = set(r[k] for r in runs) | {h[i]}
         if len(outs) > 1:
